@@ -336,9 +336,11 @@ def normalize_url(
 
         # TODO: what to do of empty query items vs. no valued
         # TODO: should be dedupe query items?
+        # NOTE: items are unquoted first so that filtering & sorting do not
+        # depend on the way keys and values happen to be escaped
         qsl = [
             item
-            for item in safe_qsl_iter(query)
+            for item in safely_unquote_qsl(safe_qsl_iter(query))
             if not should_strip_query_item(
                 item,
                 normalize_amp=normalize_amp,
@@ -403,8 +405,6 @@ def normalize_url(
 
     if quoted:
         path = safely_quote(path)
-
-    qsl = safely_unquote_qsl(qsl)
 
     if quoted:
         qsl = safely_quote_qsl(qsl, safe=SAFE_FOR_QUERY_ITEM)
